@@ -145,10 +145,13 @@ def r5_lockstep(ctx):
     impl = _load(ctx)
 
     def entails(key, i, e):
-        """does the invariant inferred for implementation `key` (C05-R4's analysis) at the source of its i-th transition entail e == 0?"""
+        """does the invariant inferred for implementation `key` (C05-R4's analysis) at the source of its i-th prepared transition, together
+        with the integer tests of that transition, entail e == 0?"""
         an = _analysis(ctx, key, impl[key])
-        sts = an.at.get(i, []) if an is not None else []
-        return bool(sts) and all(st.entails_eq(e) for var, st, out in sts)
+        if an is None:
+            return False
+        sts = SEM.states_at(an, impl[key]["raw"], impl[key]["raw"].trans[i])
+        return bool(sts) and all(st.entails_eq(e) for st in sts)
     SEM.r5_lockstep(ctx, entails)
 
 
@@ -188,7 +191,7 @@ def r4_counter_balance(ctx):
     from .e8_karr import V
     impl = _load(ctx)
     for (side, nm), a in impl.items():
-        ts = a["raw"]
+        ts = a["raw0"]
         ex = ts.ex
         where = a["where"]
         tag = f"{side} {nm}"
@@ -273,7 +276,7 @@ def r8_buffers(ctx):
     exit, nothing that is returned is released (net of the references a tuple takes), the input array is released at most once"""
     impl = _load(ctx)
     for (side, nm), a in impl.items():
-        ts = a["raw"]
+        ts = a["raw0"]
         al = ts.allocs
         tag = f"{side} {nm}"
         where = a["where"]
